@@ -23,7 +23,7 @@ ASSUMPTIONS = [
 ]
 MONITORS = "independent walk of the workspace (bytes, directories, exec bits) after apply; second compare's action lists; onerror recorder; audit-hook log of removals"
 REQUIRED_COUNTERS = [
-    "targets_handed_as_view", "root_key_file_targets", "priors_with_symlink_to_directory", "same_index_histories", "two_cache_targets", "implicit_parent_targets", "unavailable_directory_object_cases", "applies", "kind_swap_cases", "nested_dir_deletions", "lazy_targets", "explicit_targets", "delete_off_cases",
+    "same_index_histories_through_sqlite", "targets_handed_as_view", "root_key_file_targets", "priors_with_symlink_to_directory", "same_index_histories", "two_cache_targets", "implicit_parent_targets", "unavailable_directory_object_cases", "applies", "kind_swap_cases", "nested_dir_deletions", "lazy_targets", "explicit_targets", "delete_off_cases",
     "unavailable_source_cases", "second_compares", "exec_entries_checked", "link/hardlink", "link/symlink", "link/copy",
 ]
 
@@ -346,9 +346,19 @@ def run_shard(ctx):
             if os.path.exists(p2):
                 os.chmod(p2, 0o644)
                 os.unlink(p2)
-            idx = indexlab.lazy_index(T1, (top1,), cache_odb=cache)
+            sqlite_idx = rng.random() < 0.3
+            base_idx = None
+            if sqlite_idx:
+                # the target index lives in SQLite and is closed and reopened between the two checkouts
+                from dvc_data.index import DataIndex as _DI
+
+                base_idx = _DI.open(os.path.join(d, "target.db"))
+                res.count("same_index_histories_through_sqlite")
+            idx = indexlab.lazy_index(T1, (top1,), cache_odb=cache, index=base_idx)
             if variant == "object-fetched-later":
                 indexlab.lazy_index(T2, (top2,), index=idx)
+            if sqlite_idx:
+                idx.commit()
             cfg = {"history": variant, "link": link, "update_meta": um, "first": sorted("/".join(k) for k in T1), "second": sorted("/".join(k) for k in T2)}
             res.evaluated()
             res.count("applies")
@@ -372,8 +382,17 @@ def run_shard(ctx):
                 res.violation("unavailable-directory-not-reported", f"directory {top2} cannot be loaded and nothing was reported", case=case, detail=cfg)
             # the second directory becomes available / known
             indexlab.put_dir_object(cache, T2, (top2,))
+            if sqlite_idx:
+                from dvc_data.index import DataIndex as _DI2, ObjectStorage as _OS3
+
+                idx.commit()
+                idx.close()
+                idx = _DI2.open(os.path.join(d, "target.db"))
+                idx.storage_map.add_cache(_OS3(key=(), odb=cache))
             if variant == "entry-added-later":
                 indexlab.lazy_index(T2, (top2,), index=idx)
+                if sqlite_idx:
+                    idx.commit()
             errs2 = []
             exc2 = None
             try:
